@@ -59,6 +59,8 @@ impl LeastSquaresProblem<f64, Dyn, U3> for PointsToCurve<'_> {
     type ParameterStorage = Owned<f64, U3>;
 
     fn set_params(&mut self, x: &Vector<f64, U3, Self::ParameterStorage>) {
+        #[cfg(feature = "verif")]
+        verif::log(0, x.as_slice());
         self.params.set(x);
         self.move_points();
     }
@@ -68,6 +70,8 @@ impl LeastSquaresProblem<f64, Dyn, U3> for PointsToCurve<'_> {
     }
 
     fn residuals(&self) -> Option<Vector<f64, Dyn, Self::ResidualStorage>> {
+        #[cfg(feature = "verif")]
+        verif::log(1, &[]);
         let mut res = Matrix::<f64, Dyn, U1, Self::ResidualStorage>::zeros(self.points.len());
         for (i, (p, c)) in self.moved.iter().zip(self.closest.iter()).enumerate() {
             res[i] = c.scalar_projection(p);
@@ -77,6 +81,8 @@ impl LeastSquaresProblem<f64, Dyn, U3> for PointsToCurve<'_> {
     }
 
     fn jacobian(&self) -> Option<Matrix<f64, Dyn, U3, Self::JacobianStorage>> {
+        #[cfg(feature = "verif")]
+        verif::log(2, &[]);
         let mut jac = Matrix::<f64, Dyn, U3, Self::JacobianStorage>::zeros(self.points.len());
 
         for (i, (p, c)) in self.moved.iter().zip(self.closest.iter()).enumerate() {
@@ -112,6 +118,57 @@ pub fn points_to_curve(points: &[Point2], curve: &Curve2, initial: &Iso2) -> Res
     } else {
         let text = format!("Failed to align points to curve: {:?}", report.termination);
         Err(text.into())
+    }
+}
+
+/// Verification hook: drives the private least-squares problem directly and records the calls the
+/// solver makes on it (thread-local trace).
+#[cfg(feature = "verif")]
+pub mod verif {
+    use super::*;
+    use std::cell::RefCell;
+
+    thread_local! {
+        static TRACE: RefCell<Vec<(u8, Vec<f64>)>> = const { RefCell::new(Vec::new()) };
+    }
+
+    pub(super) fn log(op: u8, x: &[f64]) {
+        TRACE.with(|t| t.borrow_mut().push((op, x.to_vec())));
+    }
+
+    /// (0, x) = set_params(x), (1, []) = residuals(), (2, []) = jacobian(); cleared by the call
+    pub fn take_trace() -> Vec<(u8, Vec<f64>)> {
+        TRACE.with(|t| std::mem::take(&mut *t.borrow_mut()))
+    }
+
+    pub struct Probe2<'a>(PointsToCurve<'a>);
+
+    impl<'a> Probe2<'a> {
+        pub fn new(points: &'a [Point2], curve: &'a Curve2, initial: &Iso2) -> Self {
+            Self(PointsToCurve::new(points, curve, initial))
+        }
+        pub fn set_params(&mut self, x: [f64; 3]) {
+            LeastSquaresProblem::set_params(&mut self.0, &Vector::<f64, U3, _>::from(x));
+        }
+        pub fn params(&self) -> Vec<f64> {
+            LeastSquaresProblem::params(&self.0).as_slice().to_vec()
+        }
+        pub fn residuals(&self) -> Vec<f64> {
+            LeastSquaresProblem::residuals(&self.0).unwrap().as_slice().to_vec()
+        }
+        pub fn jacobian(&self) -> Vec<[f64; 3]> {
+            let j = LeastSquaresProblem::jacobian(&self.0).unwrap();
+            (0..j.nrows()).map(|i| [j[(i, 0)], j[(i, 1)], j[(i, 2)]]).collect()
+        }
+        pub fn moved(&self) -> &[Point2] {
+            &self.0.moved
+        }
+        pub fn closest(&self) -> &[SurfacePoint2] {
+            &self.0.closest
+        }
+        pub fn transform(&self) -> Iso2 {
+            *self.0.params.transform()
+        }
     }
 }
 
